@@ -165,6 +165,10 @@ func Mark(what string) {
 	}
 }
 
+// Freeze tells the engine's frozen-heap monitor that everything reachable from the
+// given roots (and from /repo's package variables) must not be written any more.
+func Freeze(roots ...any) {}
+
 // Counter support for laziness/impurity checks: a host-side counter that is
 // reset for every path under the engine.
 var counters = map[string]int64{}
